@@ -145,7 +145,14 @@ func hook(kind string, f *os.File, path string, data []byte) error {
 	if path != r.path { // the compaction's temporary file (or its rename): not part of the model
 		r.foreign++
 		if r.record {
-			r.ops = append(r.ops, OpRec{Ev: r.curEv, Kind: "x-" + kind, Raw: kind, Path: path})
+			rec := OpRec{Ev: r.curEv, Kind: "x-" + kind, Raw: kind, Path: path, Off: -1}
+			if f != nil {
+				rec.Off, _ = f.Seek(0, io.SeekCurrent)
+			}
+			if data != nil {
+				rec.Data = append([]byte(nil), data...)
+			}
+			r.ops = append(r.ops, rec)
 		}
 		for _, ft := range r.faults {
 			if ft.At == r.allops {
